@@ -43,7 +43,8 @@ CONSTANTS N,            \* number of parallel indexes
           MaxFaults, MaxCrash,
           Fresh,        \* passes only begin on up-to-date caches
           KillDelays,   \* set of delays (0 = now) the user may choose for the kill timestamp; {} = never kills
-          UserDeletes, ExtDeletes, NodeDowns   \* BOOLEAN switches for environment actions
+          UserDeletes, ExtDeletes, NodeDowns,  \* BOOLEAN switches for environment actions
+          Rejects       \* BOOLEAN: the queue controller may refuse the Job before it starts (admission-error annotation)
 
 Idx == 0..(N - 1)
 Att == 0..(MaxAtt - 1)
@@ -183,10 +184,16 @@ Tick == /\ now < MaxTime /\ now' = now + 1
 
 WriteJob(j) == /\ rvc' = rvc + 1 /\ job' = [j EXCEPT !.rv = rvc + 1] /\ EmitJob(job')
 
-Start == /\ job.ex /\ job.st = 0 /\ ~job.del /\ RoomJ
+Start == /\ job.ex /\ job.st = 0 /\ ~job.del /\ ~job.adm /\ RoomJ
          /\ WriteJob([job EXCEPT !.st = now])
          /\ UNCHANGED <<now, pods, jc, pc, pq, wq, timer, retry, pass, down, faults, crashes, uidc, edited, udel, ttlAt, ttlLB, taint>>
          /\ last' = [a |-> "Start"] /\ Ghosts
+
+\* the queue controller's RejectJob (concurrency policy Forbid): the Job never starts, its condition is Finished / AdmissionError
+Reject == /\ Rejects /\ job.ex /\ job.st = 0 /\ ~job.adm /\ ~job.del /\ RoomJ
+          /\ WriteJob([job EXCEPT !.adm = TRUE])
+          /\ UNCHANGED <<now, pods, jc, pc, pq, wq, timer, retry, pass, down, faults, crashes, uidc, edited, udel, ttlAt, ttlLB, taint>>
+          /\ last' = [a |-> "Reject"] /\ Ghosts
 
 UserKill(d) == /\ job.ex /\ job.kill = 0 /\ RoomJ /\ now + d <= MaxTime
                /\ WriteJob([job EXCEPT !.kill = now + d])
@@ -462,7 +469,7 @@ Init ==
     /\ ever = {} /\ succ = {} /\ listed = {} /\ succRec = {} /\ edited = FALSE /\ udel = FALSE /\ ttlAt = 0 /\ ttlLB = 0 /\ doneAt = 0
     /\ taint = "" /\ last = [a |-> "Init"]
 
-Env == \/ Tick \/ Start \/ UserDelete \/ DeliverJob \/ DeliverPod \/ TimerFire \/ RetryFire \/ CrashRestart
+Env == \/ Tick \/ Start \/ Reject \/ UserDelete \/ DeliverJob \/ DeliverPod \/ TimerFire \/ RetryFire \/ CrashRestart
        \/ \E d \in KillDelays : UserKill(d)
        \/ \E s \in Slots : Kubelet(s, "R") \/ Kubelet(s, "S") \/ Kubelet(s, "F") \/ KubeletGone(s) \/ NodeDown(s) \/ ExternalDelete(s)
 Next == Env \/ SyncBegin \/ \E f \in {"ok", "error", "conflict"} : Step(f)
